@@ -195,7 +195,10 @@ class Gen:
         o = self.pick(['append', 'append', 'set', 'del', 'del2', 'remove', 'remove2', 'has', 'has2', 'getv', 'getall', 'sort', 'sort', 'clear', 'parse', 'size', 'str'] + (['get'] if kind == 'sp' else []))
         self.stat(kind + ':' + o)
         # char-typed ill-formed names are finding F3: names/values here are well-formed text
-        n, v = self.pick(NAMES), self.pick(VALUES)
+        # names that really occur in the lists (the queries of STARTS, earlier appends) most of the time, so that
+        # set / del / remove / has / get hit existing pairs
+        n = self.pick(['a', 'b', 'q', 'x', 'y', 'k', 'z', 'c']) if self.r.randrange(10) < 6 else self.pick(NAMES)
+        v = self.pick(['1', '2', '3', 'v', '']) if self.r.randrange(10) < 5 else self.pick(VALUES)
         if o in ('append', 'set', 'del2', 'remove2', 'has2'):
             return '%s %d %s %s %s' % (kind, slot, o, self.arg(n), self.arg(v))
         if o in ('del', 'remove', 'has', 'getv', 'getall'):
